@@ -525,4 +525,12 @@ def lib_histories(thorough=False):
                   ("node[0-2],alpha,n[00-03]", ["node0", "alpha,node0", "n[02,00]", "node[2,0],alpha", "n00"])]:
         for x in xs:
             out.append(["new", "push " + t, "find " + split_top(x)[0], "delete " + x, "hosts 200", "count"])
+    # a name whose digit tail overflows strtoul (errno stays ERANGE in the process) looked up / deleted / pushed BEFORE
+    # names that have to be found inside a range record: the later answers must not depend on it
+    for poison in ["job20240929102030123456789", "n18446744073709551616", "99999999999999999999"]:
+        out.append(["new", "push foo[1-5],bar", "find " + poison, "find foo3", "delete " + poison, "delete foo3", "hosts 200",
+                    "find foo3", "find foo4", "count"])
+        out.append(["new", "push foo[1-5],bar," + poison, "find foo5", "delete foo3," + poison + ",foo5", "hosts 200", "count"])
+        out.append(["new", "push " + poison, "push foo[1-5]", "find foo2", "delete " + poison + ",foo[2-3]", "hosts 200",
+                    "find foo4", "delete_host foo4", "hosts 200", "count"])
     return out
